@@ -351,6 +351,25 @@ def run(ctx):
             for tb, fb in ((0.0005, 5.0), (0.01, 100.0), (0.0, 0.0)):
                 ctx.case(("LineString", "long_contour", nv), {"g": {"type": "LineString", "n_vertices": nv}, "tb": tb, "fb": fb})
                 judge(ctx, line, tb, fb)
+    # geometries on (or within a buffer of) each domain edge, buffered by ARBITRARY amounts -- whole numbers of Hz / ms,
+    # decimals, values without a short binary expansion -- rather than the round values of the lists above
+    ne = ctx.scale(80, 300)
+    for typ in geoms.TYPES:
+        for edge in ("time_0", "freq_0", "freq_max"):
+            for i in range(ne):
+                tb = rng.choice([float(rng.randint(1, 60)) / rng.choice([1, 10, 1000]), round(10 ** rng.uniform(-3, 1), 4), rng.uniform(0.001, 2.0)])
+                fb = rng.choice([float(rng.randint(1, 199)), float(rng.randint(1, 199)), round(10 ** rng.uniform(0, 4), 1), rng.uniform(1.0, 5000.0)])
+                w, h = rng.choice([0.05, 1.0, 7.5]), rng.choice([50.0, 1200.0, 30000.0])
+                off = rng.choice([0.0, 0.0, rng.random()])        # exactly on the edge, or within one buffer of it
+                if edge == "time_0":
+                    t0 = off * tb; f0 = rng.uniform(0, 90000)
+                elif edge == "freq_0":
+                    t0 = rng.uniform(0, 60); f0 = off * fb
+                else:
+                    t0 = rng.uniform(0, 60); f0 = MAXF - off * fb - h
+                s = geoms.geom_in_box(rng, typ, t0, t0 + w, f0, min(f0 + h, MAXF))
+                ctx.case((typ, "on_edge:" + edge, "arbitrary_buffers", "exact" if off == 0 else "near"), {"g": s, "tb": tb, "fb": fb, "tb2": None, "fb2": None})
+                judge(ctx, s, tb, fb)
     n = ctx.scale(120, 900)
     for typ in geoms.TYPES:
         for i in range(n):
